@@ -30,6 +30,32 @@ def walk(t):
             yield from walk(t['hidden'])
 
 
+def resolve_assoc(t, amap):
+    """replace `<Self as Trait>::Assoc` projections by the impl's associated type (amap: trait item path -> tree)"""
+    if not amap or not isinstance(t, dict):
+        return t
+    k = t.get('k')
+    if k == 'alias' and t.get('path') in amap and 'hidden' not in t:
+        return amap[t['path']]
+    out = dict(t)
+    if k in ('ref', 'ptr', 'slice', 'array'):
+        out['t'] = resolve_assoc(t['t'], amap)
+    elif k in ('adt', 'alias'):
+        out['args'] = [resolve_assoc(a, amap) if 'k' in a else a for a in t['args']]
+    elif k == 'tuple':
+        out['ts'] = [resolve_assoc(x, amap) for x in t['ts']]
+    return out
+
+
+def fn_sig(fn):
+    """signature with associated-type projections of the function's own impl resolved"""
+    sig = fn.j['sig']
+    amap = {a['trait_item']: a['tree'] for a in fn.j.get('assoc_types', [])}
+    if not amap:
+        return sig
+    return dict(inputs=[resolve_assoc(i, amap) for i in sig['inputs']], output=resolve_assoc(sig['output'], amap), s=sig.get('s'))
+
+
 def regions_of(t):
     out = set()
     for n in walk(t):
@@ -87,7 +113,7 @@ class Roles:
             for f in F.fns:
                 if f.kind == 'Closure' or 'sig' not in f.j:
                     continue
-                sig = f.j['sig']
+                sig = fn_sig(f)
                 roles = self.roles_in_inputs(sig)
                 for n in walk(sig['output']):
                     if n.get('k') == 'adt' and n.get('local'):
@@ -171,7 +197,7 @@ def sig_rule(ctx, rule='C14.sig'):
         if fn.kind == 'Closure' or not fn.eff_pub or 'sig' not in fn.j:
             continue
         n += 1
-        sig = fn.j['sig']
+        sig = fn_sig(fn)
         roles = R.roles_in_inputs(sig)
         involves_tx = any(('txb' in r) or ('borrow-of-carrier' in r) for r in roles.values()) or \
             any(nd.get('k') == 'adt' and any((nd['path'], i) in R.txb for i in range(len(nd['args']))) for inp in sig['inputs'] for nd in walk(inp))
@@ -185,7 +211,7 @@ def sig_rule(ctx, rule='C14.sig'):
                 rejected.append((fn, what, sorted(regs)))
                 break
     ctx.stats['public_signatures'] = n
-    f = floor(rule, 'effectively public signatures examined', n, 80)
+    f = floor(rule, 'effectively public signatures examined', n, 60)
     if f:
         res.append(f)
     ctx._c14_rejected = rejected
@@ -297,7 +323,7 @@ def private_producers(ctx, rule='C14.private-producers'):
     for fn in F.fns:
         if fn.kind == 'Closure' or 'sig' not in fn.j:
             continue
-        sig = fn.j['sig']
+        sig = fn_sig(fn)
         inr = set()
         for i in sig['inputs']:
             inr |= regions_of(i)
@@ -309,9 +335,6 @@ def private_producers(ctx, rule='C14.private-producers'):
         if free:
             prods.append((fn, sorted(free)))
     ctx.stats['unconstrained_output_lifetime_fns'] = [f.qual for f, _ in prods]
-    f = floor(rule, 'functions returning a reference whose lifetime no input constrains', len(prods), 5)
-    if f:
-        res.append(f)
     for fn, free in prods:
         if fn.eff_pub:
             res.append(bad(rule, '%s | public function with unconstrained output lifetime' % fn.qual,
